@@ -165,3 +165,27 @@ Definition longest_of (vs : list str) (v : str) : option str :=
                                | None => Some k
                                end
                           else acc) vs None.
+
+(* Starting point for the missing half of C17_trie (insert_trie keeps [wft]): the loop of
+   insert_trie as a function of its own, convertible with the nested fix of the model.
+   Plan: (A) if some sibling key is a proper prefix of v, no sibling starts with v and the
+   loop returns [dset kids k (insert_trie sub v)]; (B) otherwise it returns
+   [filter stay kids ++ [(v, T (filter moved kids))]], by the invariant
+   cur = A ++ snap ++ [(v, T m)]. *)
+Section L.
+Variables (ins : trie -> trie) (v : str).
+Fixpoint ins_loop (snap cur : list (str * trie)) : list (str * trie) :=
+  match snap with
+  | [] => ensure cur v
+  | (k, sub) :: rest =>
+      if (N.ltb (N_len k) (N_len v)) && starts_with v k then dset cur k (ins sub)
+      else if starts_with k v
+      then ins_loop rest (add_child (dremove (ensure cur v) k) v (k, sub))
+      else ins_loop rest cur
+  end.
+End L.
+
+Lemma insert_trie_eq kids v :
+  insert_trie (T kids) v =
+  if dmem kids v then T kids else T (ins_loop (fun sub => insert_trie sub v) v kids kids).
+Proof. cbn [insert_trie]. destruct (dmem kids v); reflexivity. Qed.
